@@ -159,18 +159,30 @@ def rle_entries_small(n: int, x0: int, x1: int, x2: int, hexa: bool) -> bool:
     """
     pre: 1 <= n <= 3
     pre: -1 <= x0 <= 2 and -1 <= x1 <= 2 and -1 <= x2 <= 2
+    pre: (n >= 2 or x1 == 0) and (n >= 3 or x2 == 0)
     post: _
     """
-    return _rle_entries(n, x0, x1, x2, 0, hexa)
+    n, x0, hexa = mark.pick(n, 1, 3), mark.pick(x0, -1, 2), mark.pickb(hexa)
+    x1 = mark.pick(x1, -1, 2) if n >= 2 else 0
+    x2 = mark.pick(x2, -1, 2) if n >= 3 else 0
+    with mark.untraced():
+        return _rle_entries(n, x0, x1, x2, 0, hexa)
 
 
 def rle_entries(n: int, x0: int, x1: int, x2: int, x3: int, hexa: bool) -> bool:
     """
     pre: 1 <= n <= 4
     pre: -3 <= x0 <= 3 and -3 <= x1 <= 3 and -3 <= x2 <= 3 and -3 <= x3 <= 3
+    pre: (n >= 2 or x1 == 0) and (n >= 3 or x2 == 0) and (n >= 4 or x3 == 0)
+    pre: PART < 0 or x0 + 3 == PART
     post: _
     """
-    return _rle_entries(n, x0, x1, x2, x3, hexa)
+    n, x0, hexa = mark.pick(n, 1, 4), mark.pick(x0, -3, 3), mark.pickb(hexa)
+    x1 = mark.pick(x1, -3, 3) if n >= 2 else 0
+    x2 = mark.pick(x2, -3, 3) if n >= 3 else 0
+    x3 = mark.pick(x3, -3, 3) if n >= 4 else 0
+    with mark.untraced():
+        return _rle_entries(n, x0, x1, x2, x3, hexa)
 
 
 def _rle_entries(n, x0, x1, x2, x3, hexa):
